@@ -14,7 +14,8 @@ RULE = ("dates of years 1..9999 stratified over {month ends, first days, leap da
         "'Month d, y' and 'Month d y'; long and short month words, three casings, padded numbers) x en and tr; impossible "
         "dates (31 of a 30-day month, 30/31 feb, 29 feb of non-leap years, day 0, day 32, month 0, month 13) in every "
         "spelling; date +/- N days|weeks|months|years with N from {0..29, 30, 31, 59, 60, 364..366, 500, 0..4 / 5 / 52 "
-        "weeks, 0..11 / 12 / 13 / 14 / 24 / 36 months, 0 / 1 / 4 / 100 / 400 / 1000 years, random}; 'A to B' / 'A B arası' "
+        "weeks, 0..11 / 12 / 13 / 14 / 24 / 36 months, 0 / 1 / 4 / 100 / 400 / 1000 years, random}, written spaced, "
+        "without blanks (`12 jul 1997-1 year`) or with a signed count (`+ -3 days`, `- -3 days`); 'A to B' / 'A B arası' "
         "in both orders; today / tomorrow / yesterday alone, in sums and in differences; non-trivial = evaluates to a "
         "date or a duration; distinct = distinct text")
 ASSUMPTIONS = ["the reference calendar is python's datetime.date (proleptic Gregorian), extended by the 400-year period",
@@ -284,8 +285,25 @@ def generate(rng, tier):
                                                                                       "month": 60, "year": 3000}[unit])
             op = rng.choice("+-")
             sg = 1 if op == "+" else -1
-            text = "%s %s %d %s" % (t, op, cnt, rng.choice(UNITS[lang][unit]))
-            meta = {"unit": unit, "n": cnt, "op": op, "dflt": dflt, "ymd": list(ymd) if ymd else None}
+            # `op` is the direction meant; signed counts and operators written without blanks (`12 jul 1997-1 year`
+            # is read as the date and the signed literal -1 year) mean the same as the spaced form
+            w = rng.choice(UNITS[lang][unit])
+            r = rng.random()
+            if ymd and ymd[0] <= 31:
+                # `1 jan 4-5 days`: the en pattern 'Month day year' reads `jan 4 -5` as 4 january of the year -5 (the
+                # written year is a possible day number and the signed count a year): ambiguous text, spaced form only
+                r = 0.0
+            if r < 0.7:
+                text, form = "%s %s %d %s" % (t, op, cnt, w), "spaced"
+            elif r < 0.82:
+                text, form = "%s%s%d %s" % (t, op, cnt, w), "tight"
+            elif r < 0.88:
+                text, form = "%s %s%d %s" % (t, op, cnt, w), "prefix"
+            elif op == "-":
+                text, form = "%s +%s-%d %s" % (t, rng.choice(["", " "]), cnt, w), "plus-negative"
+            else:
+                text, form = "%s - -%d %s" % (t, cnt, w), "minus-negative"
+            meta = {"unit": unit, "n": cnt, "op": op, "dflt": dflt, "ymd": list(ymd) if ymd else None, "form": form}
             if isinstance(base, tuple):
                 exp = {"t": "today", "delta": base[1] + sg * cnt * (1 if unit == "day" else 7)}
             elif unit in ("day", "week"):
